@@ -76,7 +76,7 @@ def run_c14(ctx):
         rng.shuffle(order)
         w = fresh_wallet(keys, ops, impl, order)
         head = cs.current_chain_hash
-        utxo = cs.unspent_transaction_outs_by_hash[head]
+        utxo = tree.utxo(head)                       # the harness's own ledger
         owned = {r: o for r, o in utxo.items() if o.public_key.public_key in w.keypairs}
         balance = sum(o.value for o in owned.values())
         ops.append("w balance t")
@@ -100,7 +100,7 @@ def run_c14(ctx):
                 pending = [t_ for t_ in pending if t_ not in conf]
                 cs = tree.cs
                 head = cs.current_chain_hash
-                utxo = cs.unspent_transaction_outs_by_hash[head]
+                utxo = tree.utxo(head)
                 owned = {r: o for r, o in utxo.items() if o.public_key.public_key in w.keypairs}
                 ops.append("addnv t t " + hx(nb.serialize()))
                 impl.append("ok")
@@ -121,12 +121,10 @@ def run_c14(ctx):
                 amount = max(1, remaining - fee)
             elif mode == "prefix_exact":
                 # amount + fee equal to the value of the first k outputs the wallet will meet
-                bal = cs.public_key_balances_by_hash[head]
+                bal = tree.refs_by_key(head)
                 order_ = []
                 for pk_ in w.keypairs:
-                    b_ = bal.get(SECP256k1PublicKey(pk_))
-                    if b_ is not None:
-                        order_ += [r for r in b_.output_references if r not in w.spent_transaction_outputs]
+                    order_ += [r for r in bal.get(pk_, []) if r not in w.spent_transaction_outputs]
                 if not order_:
                     continue
                 k_ = rng.randrange(1, len(order_) + 1)
@@ -137,12 +135,10 @@ def run_c14(ctx):
                     continue
             elif mode == "later_covers":
                 # the outputs met first are together too small, a later single output covers amount + fee by itself
-                bal = cs.public_key_balances_by_hash[head]
+                bal = tree.refs_by_key(head)
                 order_ = []
                 for pk_ in w.keypairs:
-                    b_ = bal.get(SECP256k1PublicKey(pk_))
-                    if b_ is not None:
-                        order_ += [r for r in b_.output_references if r not in w.spent_transaction_outputs]
+                    order_ += [r for r in bal.get(pk_, []) if r not in w.spent_transaction_outputs]
                 pick = None
                 acc_ = 0
                 for j_, r_ in enumerate(order_):
@@ -248,10 +244,19 @@ def run_c14(ctx):
     ops.append("w addkey %s %s" % (keys.pks[0].hex(), keys.sks[0].to_string().hex()))
     impl.append("ok")
     head = cs.current_chain_hash
-    utxo = cs.unspent_transaction_outs_by_hash[head]
+    utxo = tree.utxo(head)
     mine = sum(o.value for o in utxo.values() if o.public_key.public_key == keys.pks[0])
     amount = mine - 10
-    tx = create_spend_transaction(w, cs, amount, 10, SECP256k1PublicKey(keys.pks[1]), SECP256k1PublicKey(keys.pks[2]))
+    try:
+        tx = create_spend_transaction(w, cs, amount, 10, SECP256k1PublicKey(keys.pks[1]), SECP256k1PublicKey(keys.pks[2]))
+    except Exception as e:
+        res.violations.append({"kind": "an affordable spend was refused: %r" % e, "amount": amount, "fee": 10,
+                               "owned_outputs": sum(1 for o in utxo.values() if o.public_key.public_key == keys.pks[0]),
+                               "scenario": "one transaction paid the wallet's key %d times" % n_small})
+        model = ctx.driver.ask(ops)
+        kit.compare(res, ops, impl, model)
+        chain.unpatch()
+        return res
     refs = [i.output_reference for i in tx.inputs]
     ops.append("w spend t %d %d %s %s" % (amount, 10, keys.pks[1].hex(), keys.pks[2].hex()))
     impl.append("ok refs=%s outs=%s msg=%s signers=%s" % (
@@ -375,8 +380,20 @@ def run_c15(ctx):
         keys = chain.Keys(rng, rng.randrange(1, 7))
         w = fresh_wallet(keys, ops, impl)
         handed = {}          # key -> still handed out (not restored since)
+        forced = []
+        last_handed = [None]
         for step in range(ctx.scale(25, 60)):
             c = rng.random()
+            if not forced and step % 9 == 4 and len(w.unused_public_keys) >= 1 and len(w.public_key_annotations) >= 1:
+                # between two saves by the same process: one key handed out, an older one given back (same counts)
+                forced = ["save_keep", "handout", "restore_older", "save_keep"]
+            keep_object = False
+            restore_older = False
+            if forced:
+                f_ = forced.pop(0)
+                c = {"save_keep": 0.99, "handout": 0.1, "restore_older": 0.5}[f_]
+                keep_object = f_ == "save_keep"
+                restore_older = f_ == "restore_older"
             if c < 0.45:
                 had_unused = len(w.unused_public_keys) > 0
                 ann = "a%d" % rng.randrange(0, 5)
@@ -398,8 +415,12 @@ def run_c15(ctx):
                         res.violations.append({"kind": "a key was handed out twice while unused keys remained",
                                                "key": pk.hex(), "scenario": si, "step": step})
                     handed[pk] = True
+                last_handed[0] = pk
             elif c < 0.60 and w.public_key_annotations:
-                pk = rng.choice(sorted(w.public_key_annotations))
+                cands_ = sorted(w.public_key_annotations)
+                if restore_older and len(cands_) > 1 and last_handed[0] in cands_:
+                    cands_.remove(last_handed[0])
+                pk = rng.choice(cands_)
                 w.restore_annotated_public_key(pk, "x")
                 handed[pk] = False
                 ops.append("w restore " + pk.hex())
@@ -427,7 +448,8 @@ def run_c15(ctx):
                         or w2.public_key_annotations != w.public_key_annotations:
                     res.violations.append({"kind": "saving and loading does not reproduce the wallet", "before": before[:300],
                                            "after": w2_digest[:300]})
-                w = w2
+                if rng.random() < 0.4 and not keep_object:
+                    w = w2              # a restart: go on with what was loaded; otherwise the process keeps its own object
                 ops.append("w saveload")
                 impl.append("ok")
                 res.count("saveload")
